@@ -12,26 +12,26 @@ CHECKS = {
     "C01": dict(engine="S", text="bounded symbolic execution of the real accessor methods with every spectral bin a symbolic real >= 0 on a fixed family of grids; z3 proves impl == defining integral for all such spectra or returns a spectrum that is replayed in floats", ref="6/C01"),
     "C02": dict(engine="S", text="the real _peak / xrstats / npstats peak code is executed on symbolic 1-D and 2-D spectra (every path = one ordering pattern of the bins); on every path z3 proves the returned period/frequency/direction/spread/alpha/gamma is the one of a highest interior strict local maximum (NaN iff none), with the parabola vertex strictly between the neighbours", ref="6/C02"),
     "C03": dict(engine="S", text="np_ptm1/np_ptm2/np_ptm3 (real code objects) are executed on symbolic spectra, wind speed and cutoff with the watershed replaced by every label map its contract allows on the grid; on every path z3 proves bin-is-input-or-zero, no shared bin, conservation (or <= with the dropped swells the smallest), the requested count, the wind-sea fraction rule, and Hs ordering with empties last; the accessor wrappers are checked for count/order per position", ref="6/C03"),
-    "C04": dict(engine="L", text="the LLVM IR clang emits for the current specpart.c is interpreted symbolically on spectra whose bins are symbolic reals; every feasible path (level assignment x tie-breaks) ends in a concrete label map that an independent flood-fill reference must accept (all bins labelled, one connected basin per regional maximum of the discretised field, circular in direction), re-run on every circular shift; neighbour table checked for every shape up to 8x8; consecutive calls with different shapes against a fresh state", ref="6/C04",
+    "C04": dict(engine="L", text="the LLVM IR clang emits for the current specpart.c is interpreted symbolically on spectra whose bins are symbolic reals; every feasible path (level assignment x tie-breaks) ends in a concrete label map that an independent flood-fill reference must accept (all bins labelled, one connected basin per regional maximum of the discretised field, circular in direction), re-run on every circular shift; the 3x3 grid with three levels is cut into 16 sub-trees explored by separate workers under a time box; neighbour table checked for every shape up to 8x8; consecutive calls with different shapes against a fresh state", ref="6/C04",
                 note="real arithmetic stands in for the float discretisation; clang's -O0 IR trusted; counterexamples are replayed on an AddressSanitizer/UBSan build of the real C file", technique="symbolic execution of the compiler's IR (own interpreter) + SMT for path feasibility, memory-safety and overflow obligations; counterexample replay under sanitizers"),
     "C05": dict(engine="S", text="relational symbolic runs of every catalogue operation on the same symbolic data stored with dims transposed, directions rolled by every offset and reversed: z3 proves label-for-label equality; for the C boundary the strides numpy really hands to specpart.partition (recorded on 10 layout/dtype variants through the real wrappers) are checked by SMT against the address map of the C code and mismatches are replayed against the real extension", ref="6/C05"),
     "C06": dict(engine="S", text="batched symbolic datasets with independent variables per position: z3 proves op(batch)[p] == op(batch[p]) for every catalogue operation and a syntactic support check shows the result at p mentions no variable of another position; Dataset accessor == efth accessor", ref="6/C06"),
-    "C08": dict(engine="S", text="regrid_spec / interp / rotate executed on symbolic spectra with the xarray interpolation replaced by a differential-tested 1-D linear contract; z3 proves the output equals the periodic-linear reference bin by bin (exact on nodes, both seam neighbours used), non-negativity, zero above fmax, Hs conservation under maintain_m0, whole-bin rotation == circular shift", ref="6/C08"),
+    "C08": dict(engine="S", text="regrid_spec / interp / rotate executed on symbolic spectra with the xarray interpolation replaced by a differential-tested 1-D linear contract; z3 proves the output equals the periodic-linear reference bin by bin (exact on nodes, both seam neighbours used), non-negativity, zero above fmax, Hs conservation under maintain_m0, whole-bin rotation == circular shift (ascending, rotated and descending storage, integer direction coordinates with fractional targets)", ref="6/C08"),
     "C09": dict(engine="S", text="PTM4 with symbolic wind speed (the boundary celerity = wind component is a satisfying assignment, not a sampled accident), bbox with all box limits symbolic, split/PTM5 on listed on- and off-node cutoffs: z3 proves every bin is assigned by the stated rule, partitions are disjoint and sum to the input, overlapping boxes raise", ref="6/C09"),
-    "C10": dict(engine="S", text="relational symbolic runs of the real statistics on S and kS (k symbolic for polynomial statistics), on S and S with relabelled directions, plus Cauchy-Schwarz bounds proven as generic lemmas and instantiated on the implementation's outputs, and scale_by_hs with symbolic coefficients and range limits", ref="6/C10"),
+    "C10": dict(engine="S", text="relational symbolic runs of the real statistics on S and kS (k symbolic for polynomial statistics), on S and S with relabelled directions, plus Cauchy-Schwarz bounds proven as generic lemmas and instantiated on the implementation's outputs, and scale_by_hs with symbolic coefficients and symbolic hs / tp / dpm windows (a missing tp or dpm leaves the spectrum untouched)", ref="6/C10"),
     "C11": dict(engine="S", text="to_swan -> a real file on disk -> read_swan with every energy density a symbolic real that travels through the file as a token under the printf/strtod contract (half a unit of the last printed digit): z3 proves each cell comes back at the position it was written from within half a unit of its block's FACTOR, zero and missing spectra are preserved, for station and lat-lon grid layouts with unequal sizes, chunked and gzip writing; WW3 writer/reader pair through the captured dataset; CF packing parameters of the netCDF writer over a symbolic density", ref="6/C11",
                 note="the text of each number is a contract stub (documented printf/strtod behaviour); Octopus, Funwave and JSON pairs are outside the claim; reals stand in for floats"),
     "C12": dict(engine="S", text="from_ww3/from_ncswan/from_wwm/from_era5/from_ndbc and the read_dataset dispatcher executed on in-memory native datasets with symbolic densities, winds and directional moments: z3 proves every output bin is the unit-converted native bin at its converted physical direction, the variance integrals in native and converted units agree, winds are speed / coming-from direction, missing ERA5 values become 0", ref="6/C12"),
     "C13": dict(engine="S", text="PARTIAL: (a) the reconstruction kernels (NDBC ASCII and netCDF first/second moment formula, Cartwright spreading used by Spotter/Datawell) are executed on symbolic frequency spectra and directional moments and z3 proves the 2-D result integrates over direction to the 1-D spectrum (angle-addition split of cos over the uniform circle); (b) read_swan is run on real files produced by an independent reference encoder in which FACTOR and every table entry are symbolic tokens: value = FACTOR x entry (/ rho g for energy units) at its time, location, frequency and nautical direction (CDIR converted), ZERO -> 0, NODATA -> missing, in every block order. Header/column/time parsing of the other instrument formats is NOT claimed", ref="6/C13",
                 note="partial scope stated in the evidence (outside_claim): only the numerical kernels and the SWAN numeric path; reals stand in for floats"),
-    "C14": dict(engine="S", text="Dataset.spec.sel (nearest, idw, bbox) executed through the public API with symbolic station and query longitudes/latitudes and symbolic tolerance, both longitude conventions independently as preconditions: z3 proves the selected stations are those of the circular-distance / box oracle, weights are 1/d, failures happen exactly beyond the tolerance, longitudes come back in the query's convention", ref="6/C14"),
+    "C14": dict(engine="S", text="Dataset.spec.sel (nearest, idw, bbox) executed through the public API with symbolic station and query longitudes/latitudes and symbolic tolerance, both longitude conventions independently as preconditions: z3 proves the selected stations are those of the circular-distance / box oracle, weights are 1/d, failures happen exactly beyond the tolerance, longitudes come back in the query's convention - also for a selection made after an earlier selection on the same dataset object", ref="6/C14"),
     "C15": dict(engine="S", text="the real construction functions are executed with symbolic hs, fp, gamma, alpha, gw, mean direction and spread; exp / x**y / cos of symbolic arguments are uninterpreted functions with positivity and range axioms, so z3 proves the Hs-scaling and the unit integral of the spreading function for EVERY positive shape value, non-negativity, jonswap(gamma=1) == pierson_moskowitz, TMA at 5000 m == JONSWAP (depth factor evaluated in floats), and that shape x spreading integrates back to the 1-D shape", ref="6/C15"),
     "C16": dict(engine="S", text="the real smooth_spec (xarray rolling mean) is executed on symbolic spectra for every window/grid in the bound; z3 proves each output bin equals the circular window mean (or lies within the neighbourhood's min/max at the edges), identity for window 1, commutation with circular shifts; even windows must raise", ref="6/C16"),
 }
 
 CHECKS["C17"] = dict(engine="S", text="every catalogue operation, the three selections (symbolic query longitudes in either convention passed as caller-owned numpy buffers), the reader helpers and the stacking helper are executed on symbolic data along every feasible path; deep snapshots of all argument objects (cells as terms, buffers, coordinates, attributes, encodings, dims, names) taken before the call must still describe them afterwards", ref="6/C17")
 
-CHECKS["C18"] = dict(engine="S+X+L", text="all histories up to the bound over {accessor calls, in-place replacement of efth, in-place relabelling of dir with the same / another spacing, unknown-statistic call, reader call, transform call} are executed on one symbolic object (DataArray and Dataset); afterwards every observed statistic must be solver-equal to the one computed on a freshly built object with the same contents and the Dataset accessor must agree with its efth variable; CrossHair checks that AttrDict lookups do not change membership; the static buffers of the C extension are covered by consecutive_calls in C04", ref="6/C18")
+CHECKS["C18"] = dict(engine="S+X+L", text="all histories up to the bound over {accessor calls, in-place replacement of efth, in-place relabelling of dir with the same / another spacing, unknown-statistic call, reader call, transform call} are executed on one symbolic object (DataArray and Dataset); afterwards every observed statistic must be solver-equal to the one computed on a freshly built object with the same contents and the Dataset accessor must agree with its efth variable; CrossHair checks that AttrDict lookups do not change membership; peak statistics and site selection are observed after call - edit in place - call histories; the static buffers of the C extension by consecutive partition calls on different shapes (Engine L)", ref="6/C18")
 
 CHECKS["C19"] = dict(engine="S", text="inductive decomposition: the real match_consecutive_partitions is executed on symbolic peak frequencies/directions and thresholds (merging arrays keep the elementwise threshold tests as terms, forks only at the real control flow) and z3 proves the step postcondition on every path; the real np_track_partitions is then run with the matcher replaced by every vector that postcondition allows (propagation lemma: uniqueness, 0..N-1 in order of appearance, no reappearance) and once unmodified on symbolic statistics (glue: slices, threshold indexing, dt); the xarray wrapper per site", ref="6/C19")
 CHECKS["C20"] = dict(engine="S+L", text="exception monitor over symbolic sweeps of every statistic/transform/rule-based partition on the degenerate families (zero, constant, single bin, peak on the first/last frequency, 1-2 directions, 1-3 frequencies): any exception on a feasible path is replayed and reported; invalid arguments must raise ValueError; the IR of specpart.c is executed with an in-bounds obligation on every load/store, an int32-overflow obligation on every add/sub/mul, initialised-read, use-after-free and instruction-budget checks, counterexamples replayed under ASan/UBSan; the level-index clamp is proved for all doubles as a QF_FP query", ref="6/C20",
